@@ -6,6 +6,7 @@ import difflib
 import json
 
 import common
+import callshapes
 import progspace
 
 LEAN_TARGETS = ["CM.Props.C06", "CM.Props.Pipeline", "CM.Generated.PredsEq"]
@@ -108,6 +109,6 @@ def search(ctx):
                 new_lines = changed_new_lines(rec["before"], rec["after"])
                 still = [f for f in rec["flagged1"] if any(l in new_lines for l in range(f[0], f[1] + 1))]
                 if still and not shadowed(rec["before"]):
-                    ctx.fail({"kind": "still-flagged-after", "codemod": cid}, f"{cid}: after the run its rule still reports {still} inside rewritten lines (variant {name})",
+                    ctx.fail({"kind": "still-flagged-after", "codemod": cid, "shape": callshapes.shape_class(name)}, f"{cid}: after the run its rule still reports {still} inside rewritten lines (variant {name})",
                              {"codemod": cid, "program": name, "before": rec["before"], "after": rec["after"], "flagged_after": rec["flagged1"]})
     ctx.notes.append(f"rule-detected codemods in this pass: {n_sem}")
